@@ -937,6 +937,7 @@ func genOps(r *hx.Rng, d *def, lv *level, n int) []aop {
 }
 
 func lazyCase(stream string, entry string, fast bool, d *def, input []byte, ops []aop, wellFormed bool) {
+	hx.Inflight(fmt.Sprintf("lazy case: entry=%s fast=%v def=%s input=%s", entry, fast, d.String(), hx.B(input)))
 	res, tok, closer := decodeBoth(entry, fast, d, input)
 	outs := []string{tok}
 	toks := make([]string, len(ops))
@@ -1238,6 +1239,9 @@ func main() {
 	flag.Parse()
 	thorough = *tier == "thorough"
 	sink = hx.NewSink()
+	if prop != "C15" {
+		hx.InflightOpen(*out)
+	}
 	r := hx.NewRng(*seed).Fork(prop)
 	switch prop {
 	case "C13":
@@ -1253,6 +1257,7 @@ func main() {
 		os.Exit(2)
 	}
 	hx.Must(sink.Write(*out))
+	hx.InflightDone(*out)
 }
 
 // ---------------------------------------------------------------------------------------------
